@@ -14,7 +14,7 @@ use std::convert::TryFrom;
 pub fn meta() -> Meta {
     Meta {
         rule: "exhaustive over all 65536 codes: u16::from(TYPE::from(c)) == c, TYPE::from(c) is the named variant for the 41 IANA numbers of an independent table (NULL = 10 included) and \
-Unknown(c) otherwise; QTYPE::try_from(c) is Ok and round-trips for supported codes and 251..255 and Err otherwise; CLASS for {1,2,3,4,254}; QCLASS additionally 255. Matching matrix: for \
+Unknown(c) otherwise; QTYPE::try_from(c) is Ok and round-trips for supported codes and 251..255 and Err otherwise; CLASS for {1,2,3,4,254}; QCLASS additionally 255; the same through Packet::parse of a one-question message for all 65536 values of the class field (QU bit = top bit, class = the other 15) and of the type field. Matching matrix: for \
 every supported type code (and several unknown ones) a record obtained both by construction and by parsing a reference-encoded message is matched against every question type \
 {TYPE(t') for all supported t', ANY, MAILB}: expected ANY or t'==t or MAILB with t in {MB,MG,MR}; all class x qclass pairs, on the built record, the parsed record and the into_owned() copy of each; rdata.type_code() == TYPE::from(wire code) including NULL, unknown and empty RDATA. \
 non-trivial = every case; distinct = hash of the case",
@@ -130,6 +130,44 @@ pub fn run(ctx: &mut Ctx) {
             ctx.count("codes_checked");
         }
         ctx.sample("codes", || json!("all 65536 codes"));
+    }
+
+    // the same tables reached through a parsed question: the 16 bits after the name and the type are the (QU bit, 15-bit class)
+    // pair of RFC 6762 §5.4, nothing narrower -- a class outside the table is an error, not the class its low bits spell
+    if ctx.family_active("wire-question") {
+        let step = if ctx.slow_tool { 97u32 } else { 1 };
+        for i in (0..=0x1FFFFu32).step_by(step as usize) {
+            if !ctx.take("wire-question", i as u64) {
+                continue;
+            }
+            let (sweep_class, code) = (i < 0x10000, (i & 0xFFFF) as u16);
+            let (qt, qc) = if sweep_class { ([1u16, 16, 255, 33][(i % 4) as usize], code) } else { (code, [1u16, 0x8001, 255, 3][(i % 4) as usize]) };
+            let mut bytes = vec![(i >> 8) as u8, i as u8, 0x00, 0x00, 0, 1, 0, 0, 0, 0, 0, 0];
+            bytes.extend_from_slice(if i % 3 == 0 { &b"\x01a\x05local\x00"[..] } else { &b"\x00"[..] });
+            bytes.extend_from_slice(&qt.to_be_bytes());
+            bytes.extend_from_slice(&qc.to_be_bytes());
+            ctx.case(true, i as u64 ^ 0x18_100000);
+            let case = || case_bytes_json("wire-question", i as u64, &bytes);
+            let got = monitor::guard(|| Packet::parse(&bytes).map(|p| p.questions.iter().map(|q| (u16::from(q.qtype), u16::from(q.qclass), q.unicast_response)).collect::<Vec<_>>()).map_err(|e| format!("{:?}", e)));
+            let got = match got {
+                Ok(g) => g,
+                Err(pn) => {
+                    ctx.panic_violation("Packet::parse", &pn, case());
+                    continue;
+                }
+            };
+            let low = qc & 0x7FFF;
+            let t_ok = supported(qt) || (251..=255).contains(&qt);
+            let c_ok = matches!(low, 1 | 2 | 3 | 4 | 254 | 255);
+            let want = if t_ok && c_ok { Ok(vec![(qt, low, qc & 0x8000 != 0)]) } else { Err(()) };
+            match (&got, &want) {
+                (Ok(g), Ok(w)) if g == w => ctx.count("wire_questions_read_exactly"),
+                (Err(_), Err(())) => ctx.count("wire_questions_refused"),
+                _ => ctx.violation("class", if sweep_class { "wire-qclass-aliased" } else { "wire-qtype-aliased" },
+                    format!("question with type field {} and class field {:#06x} parsed as {:?}; expected {:?} (type, class, unicast-response)", qt, qc, got, want), case()),
+            }
+        }
+        ctx.sample("wire-question", || json!("all 65536 class fields and all 65536 type fields of a parsed question"));
     }
 
     // matching matrix
